@@ -662,9 +662,20 @@ def rule_nonetest(run):
     tab, xtab = tables(prog)
     for name, fi in sorted(prog.cls('t2data', 't2data').methods.items()):
         if name.startswith('read_'): nonetest_rule(run, fi, [tab])
+    from .optnum import optnum_rule
+    optnum_rule(run, ['t2data', 't2grids'])
+
+
+def rule_pure(run):
+    run.rule('PURE', 'a write_* method does not modify the model: no store through an un-copied attribute dictionary '
+             '(x.__dict__ / vars(x)), no attribute assignment on an element of one of the model\'s lists', floor=1)
+    from .purewrite import pure_rule
+    cls = run.prog.cls('t2data', 't2data')
+    pure_rule(run, [fi for name, fi in sorted(cls.methods.items()) if name.startswith('write')])
 
 
 def check(run):
+    run.guarded('PURE', rule_pure)
     run.guarded('DISP', rule_disp_kw_recseq_term)
     run.guarded('ENDKW', rule_endkw)
     run.guarded('TWINSPEC', rule_twinspec)
